@@ -20,6 +20,8 @@ func init() {
 	suites["sched"] = suiteSched
 	suites["gomaxprocs"] = suiteGomaxprocs
 	replayers["gomaxprocs-decode"] = replayGomaxprocsDecode
+	replayers["gomaxprocs-fillsplit"] = replayGomaxprocsFillSplit
+	replayers["sched-syn-decode"] = replaySchedSynDecode
 }
 
 type schedCase struct {
@@ -40,7 +42,7 @@ func encodeBytes(img image.Image, o *webp.EncoderOptions) ([]byte, error) {
 // unperturbed single-worker run and the recorded claim/process/record trace must be accepted by the
 // Lean RowPipe model (every guard true); (ii) concurrent use of the public API equals solo results.
 func suiteSched(rep *Report) error {
-	rep.Rule = "(i) lossy Encode (Method>=3, >=4 macroblock rows => row pipeline) with GOMAXPROCS 2..8 and seeded Gosched/sleep/stall perturbation at every hook point; bytes compared with the GOMAXPROCS=1 unperturbed run; event trace validated against the Lean RowPipe guards (op pipetrace); (i-c) a lossless Encode parked inside its writer's first Write (or writing through a yielding chunking writer / an io.Pipe with a slow consumer) while three other encodes run, under GOMAXPROCS(1) and the value in force: every call's bytes equal its solo bytes and decode; (ii) N goroutines calling Encode/Decode/DecodeConfig/GetFeatures/animation/mux concurrently vs solo results, incl. per round 4 pairs of different pictures with equal macroblock dimensions whose lossy encodes take the serial path (Method >= 3 with < 4 macroblock rows, or a size target) and so compete for the same pooled encoders; non-trivial = run used >= 2 workers and hit the slow wait path or had overlapping rows"
+	rep.Rule = "(i) lossy Encode (Method>=3, >=4 macroblock rows => row pipeline) with GOMAXPROCS 2..8 and seeded Gosched/sleep/stall perturbation at every hook point; bytes compared with the GOMAXPROCS=1 unperturbed run; event trace validated against the Lean RowPipe guards (op pipetrace); (i-c) a lossless Encode parked inside its writer's first Write (or writing through a yielding chunking writer / an io.Pipe with a slow consumer) while three other encodes run, under GOMAXPROCS(1) and the value in force: every call's bytes equal its solo bytes and decode; (i-d) lossless Encode of pictures with >= 64 histogram tiles (noise blocks + large flat areas, correlated channels; Quality 90..100, Method 3..6) with 2..8 workers: bytes equal the GOMAXPROCS=1 run and decode to the source; (ii-a) synthetic VP8L streams of the random writer that use colour indexing (pixel indices beyond the palette, any transform chain) decoded after and while larger noisy pictures are decoded, under GOMAXPROCS 1 and 8: result equals the decode on a quiet process with emptied pools; (ii) N goroutines calling Encode/Decode/DecodeConfig/GetFeatures/animation/mux concurrently vs solo results, incl. per round 4 pairs of different pictures with equal macroblock dimensions whose lossy encodes take the serial path (Method >= 3 with < 4 macroblock rows, or a size target) and so compete for the same pooled encoders; non-trivial = run used >= 2 workers and hit the slow wait path or had overlapping rows"
 	defer runtime.GOMAXPROCS(runtime.GOMAXPROCS(0))
 	n := 60
 	if rep.Tier == "thorough" {
@@ -203,6 +205,22 @@ func suiteSched(rep *Report) error {
 			return nil
 		}
 	}
+
+	// (i-d) the LOSSLESS encoder's parallel stages (hash chain, predictor / cross-colour selection, histogram
+	// build and remap: WaitGroup fan-outs over GOMAXPROCS workers) under the same oracle as (i): bytes equal the
+	// GOMAXPROCS=1 run, for every worker count 2..8 - and the bytes decode to the source. Pictures with >= 64
+	// histogram tiles, several clusters and runs of empty tiles (noise blocks + large flat areas), and
+	// correlated channels; Quality 90 / 100 so that the full remap pass runs, Method 3..6.
+	if !schedLosslessWorkers(rep) {
+		return nil
+	}
+
+	// (ii-a) synthetic VP8L streams the library's encoder never writes (random writer of gen_vp8l.go: colour
+	// indexing with pixel indices beyond the palette, colour cache, meta prefix codes, any transform chain),
+	// decoded while larger noisy pictures are decoded by other goroutines: every result must equal the decode
+	// of the same bytes on a quiet process whose pools were just emptied (two GC cycles) - what a decoder
+	// leaves in a pooled buffer must never show in a later result.
+	schedSynDecodes(rep)
 
 	// (ii) concurrent public API use vs solo results
 	rounds := 6
@@ -406,8 +424,9 @@ func genCorrelated(r *RNG, w, h int) *image.NRGBA {
 }
 
 // GOMAXPROCS values of the sweep: 4, 7 and 13 were added after round 3 (a worker's first row is the
-// bottom tile row only for some counts: (T-1) mod ceil(T/G) == 0)
-var gmpProcs = []int{1, 2, 3, 4, 5, 7, 8, 13, 16, 32}
+// bottom tile row only for some counts: (T-1) mod ceil(T/G) == 0), 6, 9 and 11 after round 4 (range ends of
+// the hash-chain workers)
+var gmpProcs = []int{1, 2, 3, 4, 5, 6, 7, 8, 9, 11, 13, 16, 32}
 
 // gmpDecodeSweep decodes one file under every GOMAXPROCS value; results (pixels or error class)
 // must equal the GOMAXPROCS=1 result.  It returns whether the single-CPU decode succeeded.
@@ -482,10 +501,15 @@ func replayGomaxprocsDecode(in map[string]any) int {
 
 // suiteGomaxprocs: C12 — same inputs under GOMAXPROCS 1,2,3,5,8,16,32: identical bytes / pixels.
 func suiteGomaxprocs(rep *Report) error {
-	rep.Rule = "Encode (lossy; lossless with Quality in {25,50,75,80,90,100}) and Decode on inputs large enough to pass every parallel threshold (>=4 macroblock rows, >50000 / >=100000 pixels, >=16 / >=64 histogram tiles, >2 animation frames) plus small ones, under GOMAXPROCS in {1,2,3,4,5,7,8,13,16,32}; image classes: the 8 generic classes, 'noise blocks + large flat areas' (several histogram clusters AND empty histogram tiles; lossless Quality 90/100 so that the histogram remap pass runs), 'correlated colour channels' (the lossless encoder selects the cross-colour transform — confirmed per case with the Lean stream parser, op vp8linfo — at sizes whose rows/GOMAXPROCS is not tile-aligned: 400x404, 512x300, 330x333), 'tile geometry' (correlated channels at lossless Method 5/6 = 4x4 transform tiles, height = 4(T-1)+1 or +3 with T <= 32 tile rows, widths of every residue mod 4 and 3xN pictures narrower than a tile: 64x51, 96x53, 200x125, 3x67 ... - ragged tiles of 4/9/12 pixels that are the first tile of a worker), sizes on the numeric thresholds of the code (thresholds.go) with cheap content; decode-only: synthetic VP8L streams (writer SynVP8LCross) with a forced cross-colour transform, tile bits 2..5, optional predictor/subtract-green, >=100000 pixels, prime or odd heights; outputs must be byte/pixel identical to the GOMAXPROCS=1 result; non-trivial = the input crosses at least one parallel threshold (for the cross-colour cases: the stream really contains a cross-colour transform)"
+	rep.Rule = "Encode (lossy; lossless with Quality in {25,50,75,80,90,100}) and Decode on inputs large enough to pass every parallel threshold (>=4 macroblock rows, >50000 / >=100000 pixels, >=16 / >=64 histogram tiles, >2 animation frames) plus small ones, under GOMAXPROCS in {1,2,3,4,5,6,7,8,9,11,13,16,32}; image classes: the 8 generic classes, 'noise blocks + large flat areas' (several histogram clusters AND empty histogram tiles; lossless Quality 90/100 so that the histogram remap pass runs), 'correlated colour channels' (the lossless encoder selects the cross-colour transform — confirmed per case with the Lean stream parser, op vp8linfo — at sizes whose rows/GOMAXPROCS is not tile-aligned: 400x404, 512x300, 330x333), 'tile geometry' (correlated channels at lossless Method 5/6 = 4x4 transform tiles, height = 4(T-1)+1 or +3 with T <= 32 tile rows, widths of every residue mod 4 and 3xN pictures narrower than a tile: 64x51, 96x53, 200x125, 3x67 ... - ragged tiles of 4/9/12 pixels that are the first tile of a worker), lossy pictures one macroblock column wide (1..15 x 49..130, neither a multiple of 16) at Method 3..6, 'wide flat runs' (9000x8, 4097x14, 5000x11 palette pictures: two equal noise rows, then one flat colour with stray pixels at p-xsize+4095 and p-4096 for the range ends p of the hash-chain workers of every swept GOMAXPROCS value) end to end and at hook level (verifapi.FillMatchEnds: the matches the worker body computes just below a range end e equal those inside an uncut range, e around every p, the range ends of every swept value, 150 random ends; also random run-length pictures with runs of 4094..4098, 8191..8193), sizes on the numeric thresholds of the code (thresholds.go) with cheap content; decode-only: synthetic VP8L streams (writer SynVP8LCross) with a forced cross-colour transform, tile bits 2..5, optional predictor/subtract-green, >=100000 pixels, prime or odd heights; outputs must be byte/pixel identical to the GOMAXPROCS=1 result; non-trivial = the input crosses at least one parallel threshold (for the cross-colour cases: the stream really contains a cross-colour transform)"
 	defer runtime.GOMAXPROCS(runtime.GOMAXPROCS(0))
 	procs := gmpProcs
 	thorough := rep.Tier == "thorough"
+	lapT := time.Now()
+	lap := func(name string) {
+		rep.Extra["t_"+name+"_s"] = float64(int(time.Since(lapT).Seconds()*100)) / 100
+		lapT = time.Now()
+	}
 
 	// sweep: encode under every GOMAXPROCS value (bytes must equal the single-CPU bytes) and
 	// decode the single-CPU file under every value (pixels must be equal).
@@ -576,6 +600,7 @@ func suiteGomaxprocs(rep *Report) error {
 		}
 	}
 
+	lap("a_generic")
 	// --- (b) noise blocks + large flat areas, lossless, Quality 90 / 100 (histogram remap pass, >= 64 tiles) ---
 	nNF := 2
 	if thorough {
@@ -607,6 +632,7 @@ func suiteGomaxprocs(rep *Report) error {
 		tfProbes = append(tfProbes, tfProbe{desc, ref})
 	}
 
+	lap("b_noiseflat")
 	// --- (c) correlated colour channels, lossless: the encoder uses the cross-colour transform ---
 	corrSizes := [][2]int{{400, 404}, {512, 300}, {330, 333}}
 	nCorr := len(corrSizes)
@@ -634,6 +660,7 @@ func suiteGomaxprocs(rep *Report) error {
 		tfProbes = append(tfProbes, tfProbe{desc, ref})
 	}
 
+	lap("c_correlated")
 	// --- (c2) tile geometry: lossless Method 5 / 6 (4x4 transform tiles), correlated channels, sizes derived
 	// from the tile grid instead of from round numbers: height = 4(T-1) + {1,3} (ragged bottom tile row of 1
 	// or 3 pixel rows: tiles of 4, 12 or 9 pixels, not a multiple of the 8-wide inner loops), T <= 32 tile
@@ -671,6 +698,97 @@ func suiteGomaxprocs(rep *Report) error {
 		}
 	}
 
+	lap("c2_tilegeom")
+	// --- (c2b) one macroblock column: lossy pictures 1..15 pixels wide and 49..130 high, neither a multiple of
+	// 16 (clipped corner block; with one column the block a worker handled before is another ROW, and which
+	// one depends on the worker count), Method 3..6 = row-pipelined encoder, content differing from row to row
+	{
+		oc := [][2]int{{9, 101}, {10, 100}, {15, 49}, {7, 83}, {1, 67}, {13, 130}, {3, 97}, {5, 65}}
+		nOC := 2
+		if thorough {
+			nOC = 40
+		}
+		for k := 0; k < nOC; k++ {
+			r := NewRNG(rep.Seed, uint64(2780000+k))
+			oc = append(oc, [2]int{1 + r.Intn(15), 49 + r.Intn(82)})
+		}
+		for k, sz := range oc {
+			r := NewRNG(rep.Seed, uint64(2781000+k))
+			cls := []int{ClsNoise, ClsPhoto, ClsNoise, ClsPal16}[k%4]
+			img := GenImage(NewRNG(rep.Seed, uint64(2782000+k)), sz[0], sz[1], cls, AlphaNone)
+			o := webp.DefaultOptions()
+			o.Method = 3 + (k+int(rep.Seed))%4
+			o.Quality = float32([]int{75, 50, 90}[r.Intn(3)])
+			o.Segments = 1 + r.Intn(4)
+			desc := fmt.Sprintf("%s/one-mb-column lossless=false m=%d q=%v seg=%d", imgDesc(sz[0], sz[1], cls, AlphaNone), o.Method, o.Quality, o.Segments)
+			if _, err := sweep(fmt.Sprintf("oc%d", k), img, sz[0], sz[1], o, desc, true); err != nil {
+				return err
+			}
+			rep.Count("class:one-mb-column")
+		}
+	}
+
+	lap("c2b_onecolumn")
+	// --- (c4) wide flat runs (thresholds 4095 / 4096 pixels: longest match, window of the hash chain): a
+	// picture wider than 4096 with two equal noise rows and then ONE flat colour, except for stray pixels
+	// placed relative to the range ends of the parallel hash-chain workers for several worker counts G:
+	// p = k*ceil((size-2)/G) is the last position of worker k-1; strays at p-xsize+4095 (just right of the
+	// 4095-pixel window one row above p) and p-4096 (so that a copy of the greedy parse ends at p-1). What a
+	// worker computes for p must not depend on whether p+1 belongs to it. End to end (bytes equal for every
+	// GOMAXPROCS) and at hook level (verifapi.FillMatchEnds: the matches of the tail of a range ending at e equal
+	// those inside the uncut range, for every e around every p).
+	{
+		wf := [][2]int{{9000, 8}, {4097, 14}, {5000, 11}}
+		if thorough {
+			wf = append(wf, [2]int{6001, 9}, [2]int{4100, 13}, [2]int{12000, 6}, [2]int{4099, 25})
+		}
+		for k, sz := range wf {
+			r := NewRNG(rep.Seed, uint64(2790000+k))
+			img, argb, ps := genWideFlatRun(r, sz[0], sz[1], gmpProcs)
+			o := webp.DefaultOptions()
+			o.Lossless = true
+			o.Quality = float32([]int{75, 60, 75, 90}[(k+int(rep.Seed))%4])
+			o.Method = []int{4, 3, 5, 4}[(k+int(rep.Seed))%4]
+			desc := fmt.Sprintf("%dx%d/wide-flat-run(%d range ends marked) lossless=true m=%d q=%v", sz[0], sz[1], len(ps), o.Method, o.Quality)
+			if _, err := sweep(fmt.Sprintf("wf%d", k), img, sz[0], sz[1], o, desc, true); err != nil {
+				return err
+			}
+			rep.Count("class:wide-flat-run")
+			rep.Count("threshold:4095pixels")
+			rep.Count("threshold:4096pixels-copy")
+			gmpFillSplit(rep, fmt.Sprintf("wf%d", k), argb, sz[0], sz[1], int(o.Quality), ps, r)
+		}
+		// hook level only: random index pictures with long runs (run lengths around 4095 / 4096 / 4097)
+		nRuns := 3
+		if thorough {
+			nRuns = 40
+		}
+		for k := 0; k < nRuns; k++ {
+			r := NewRNG(rep.Seed, uint64(2795000+k))
+			w, h := 4097+r.Intn(3000), 0
+			h = 50000/w + 2 + r.Intn(4)
+			argb := make([]uint32, w*h)
+			pos := 0
+			var ps []int
+			for pos < len(argb) {
+				c := 0xff000000 | uint32(r.Intn(40))<<8
+				n := 1 + r.Intn(6)
+				if r.Chance(1, 6) {
+					n = []int{4094, 4095, 4096, 4097, 4098, 8191, 8192, 8193, w, w + 4095}[r.Intn(10)]
+					ps = append(ps, mini(pos+n, len(argb)-2), mini(pos+n/2, len(argb)-2))
+				}
+				for ; n > 0 && pos < len(argb); n-- {
+					argb[pos] = c
+					pos++
+				}
+			}
+			// the second row band repeats the first (far matches one row / two rows back)
+			copy(argb[w:2*w], argb[:w])
+			gmpFillSplit(rep, fmt.Sprintf("runs%d", k), argb, w, h, []int{75, 50, 90}[k%3], ps, r)
+		}
+	}
+
+	lap("c4_wideflat")
 	// --- (c3) sizes on the numeric thresholds of the code (thresholds.go), cheap content, both codecs ---
 	{
 		nT := 6
@@ -695,6 +813,7 @@ func suiteGomaxprocs(rep *Report) error {
 		}
 	}
 
+	lap("c3_threshold")
 	// which transforms did the large lossless files really use? (Lean stream parser)
 	{
 		var lines []string
@@ -725,6 +844,7 @@ func suiteGomaxprocs(rep *Report) error {
 		}
 	}
 
+	lap("tfprobe")
 	// --- (d) decode-only: synthetic VP8L streams with a forced cross-colour transform ---
 	synDims := [][2]int{{400, 251}, {317, 331}, {512, 197}, {1000, 101}, {347, 293}, {640, 157}, {359, 283}, {333, 307}}
 	nSyn := 8
@@ -755,6 +875,7 @@ func suiteGomaxprocs(rep *Report) error {
 		}
 	}
 
+	lap("d_syncross")
 	// animation: DecodeFramesParallel with > 2 frames
 	for k := 0; k < 3; k++ {
 		var buf bytes.Buffer
@@ -790,6 +911,408 @@ func suiteGomaxprocs(rep *Report) error {
 		}
 	}
 	return nil
+}
+
+// genWideFlatRun: w x h picture (w > 4096) of 30 noise colours in rows 0 and 1 (row 1 repeats row 0) and one
+// flat colour below, with two stray pixels per marked range end. It returns the picture, the index image the
+// hash chain will see (one value per pixel; the lossless encoder palettises the picture: 33 colours, unpacked)
+// and the marked positions.
+func genWideFlatRun(r *RNG, w, h int, procs []int) (*image.NRGBA, []uint32, []int) {
+	img := image.NewNRGBA(image.Rect(0, 0, w, h))
+	size := w * h
+	noise := make([][3]byte, 30)
+	for i := range noise {
+		noise[i] = [3]byte{byte(40 + 5*i), byte(200 - 3*i), byte(17 * i)}
+	}
+	set := func(pos int, c [3]byte) {
+		o := 4 * pos
+		img.Pix[o], img.Pix[o+1], img.Pix[o+2], img.Pix[o+3] = c[0], c[1], c[2], 255
+	}
+	for x := 0; x < w; x++ {
+		c := noise[r.Intn(len(noise))]
+		set(x, c)
+		set(w+x, c)
+	}
+	flat := [3]byte{10, 20, 30}
+	for pos := 2 * w; pos < size; pos++ {
+		set(pos, flat)
+	}
+	var ps []int
+	used := map[int]bool{}
+	for _, g := range procs {
+		if g < 2 || g > size/1000 {
+			continue
+		}
+		ppw := (size - 2 + g - 1) / g
+		for k := 1; k < g; k++ {
+			p := k * ppw // last position of worker k-1 (its range is [1+(k-1)*ppw, 1+k*ppw))
+			if p-w-1 < 2*w || p >= size-2 || used[p] {
+				continue
+			}
+			// keep the marks apart: a stray pixel inside another mark's window would change both
+			near := false
+			for _, q := range ps {
+				if q-p < 2*w+8200 && p-q < 2*w+8200 {
+					near = true
+				}
+			}
+			if near {
+				continue
+			}
+			used[p] = true
+			ps = append(ps, p)
+			set(p-w+4095, [3]byte{250, 1, 1})
+			set(p-4096, [3]byte{1, 250, 1})
+		}
+	}
+	argb := make([]uint32, size)
+	for i := 0; i < size; i++ {
+		o := 4 * i
+		argb[i] = 0xff000000 | uint32(img.Pix[o])<<16 | uint32(img.Pix[o+1])<<8 | uint32(img.Pix[o+2])
+	}
+	return img, argb, ps
+}
+
+// gmpFillSplit: split invariance of the parallel hash-chain pass at hook level. What the worker body computes
+// for the positions just below a range end e must equal what it computes for them inside one uncut range:
+// e = p-2..p+3 around every marked position p, the range ends of every GOMAXPROCS value of the sweep, and
+// random ends.
+func gmpFillSplit(rep *Report, caseID string, argb []uint32, w, h, quality int, ps []int, r *RNG) {
+	size := w * h
+	const span = 96
+	var ends []int
+	for _, p := range ps {
+		for e := p - 2; e <= p+3; e++ {
+			if e > 1 && e < size-1 {
+				ends = append(ends, e)
+			}
+		}
+	}
+	for _, g := range gmpProcs {
+		if g < 2 || g > size/1000 {
+			continue
+		}
+		ppw := (size - 2 + g - 1) / g
+		for k := 1; k < g; k++ {
+			if c := 1 + k*ppw; c < size-1 {
+				ends = append(ends, c)
+			}
+		}
+	}
+	for k := 0; k < 150; k++ {
+		ends = append(ends, 2+r.Intn(size-4))
+	}
+	whole, pieces, ok := verifapi.FillMatchEnds(argb, w, h, quality, ends, span)
+	if !ok {
+		rep.Count("fill-split:too-small")
+		return
+	}
+	reported := 0
+	for k, e := range ends {
+		rep.Eval(true, []byte(fmt.Sprintf("fill-split %s %d", caseID, e)))
+		rep.Count("fill-split:range-ends")
+		s0 := maxi(e-span, 1)
+		for i, v := range pieces[k] {
+			if v != whole[s0+i] && reported < 3 {
+				reported++
+				rep.Add(Finding{Kind: "property", Property: "C12", Signature: "gomaxprocs:fill-split-differs",
+					Detail: fmt.Sprintf("hash-chain worker body (fillMatchRange): as the tail of a range ending at %d it gives offset/length %d/%d at position %d, inside an uncut range %d/%d (%dx%d index picture, quality %d): the matches depend on where fillParallel cuts the position range, i.e. on GOMAXPROCS",
+						e, v>>12, v&4095, s0+i, whole[s0+i]>>12, whole[s0+i]&4095, w, h, quality),
+					Input: map[string]any{"op": "gomaxprocs-fillsplit", "seed": rep.Seed, "case": caseID, "w": w, "h": h, "quality": quality, "end": e, "position": s0 + i, "argb_digest": digestU32(argb), "argb_rle": rleU32(argb)}})
+				break
+			}
+		}
+	}
+}
+
+func digestU32(a []uint32) string {
+	b := make([]byte, 4*len(a))
+	for i, v := range a {
+		b[4*i], b[4*i+1], b[4*i+2], b[4*i+3] = byte(v), byte(v>>8), byte(v>>16), byte(v>>24)
+	}
+	return digest(b)
+}
+
+// rleU32 is a compact literal form of an index picture with long runs: "value*count,value*count,...".
+func rleU32(a []uint32) string {
+	var sb strings.Builder
+	for i := 0; i < len(a); {
+		j := i
+		for j < len(a) && a[j] == a[i] {
+			j++
+		}
+		if sb.Len() > 0 {
+			sb.WriteByte(',')
+		}
+		fmt.Fprintf(&sb, "%x*%d", a[i], j-i)
+		i = j
+	}
+	return sb.String()
+}
+
+func unrleU32(s string) []uint32 {
+	var out []uint32
+	for _, f := range strings.Split(s, ",") {
+		var v uint32
+		var n int
+		if _, err := fmt.Sscanf(f, "%x*%d", &v, &n); err != nil {
+			return nil
+		}
+		for ; n > 0; n-- {
+			out = append(out, v)
+		}
+	}
+	return out
+}
+
+func replayGomaxprocsFillSplit(in map[string]any) int {
+	argb := unrleU32(fmt.Sprint(in["argb_rle"]))
+	w, _ := in["w"].(float64)
+	h, _ := in["h"].(float64)
+	q, _ := in["quality"].(float64)
+	e, _ := in["end"].(float64)
+	if len(argb) != int(w)*int(h) || len(argb) == 0 {
+		fmt.Println("bad replay input")
+		return 2
+	}
+	const span = 96
+	whole, pieces, ok := verifapi.FillMatchEnds(argb, int(w), int(h), int(q), []int{int(e)}, span)
+	if !ok || len(pieces) != 1 {
+		fmt.Println("picture too small for the parallel path")
+		return 2
+	}
+	s0 := maxi(int(e)-span, 1)
+	for i, v := range pieces[0] {
+		if v != whole[s0+i] {
+			fmt.Printf("go: position %d: as tail of a range ending at %d -> offset/length %d/%d, uncut %d/%d\n", s0+i, int(e), v>>12, v&4095, whole[s0+i]>>12, whole[s0+i]&4095)
+			return 1
+		}
+	}
+	fmt.Printf("go: range ending at %d and uncut range agree on positions %d..%d\n", int(e), s0, int(e)-1)
+	return 0
+}
+
+// schedLosslessWorkers: leg (i-d) of suite sched. Returns false when an encode hung.
+func schedLosslessWorkers(rep *Report) bool {
+	defer runtime.GOMAXPROCS(runtime.GOMAXPROCS(0))
+	n := 5
+	if rep.Tier == "thorough" {
+		n = 60
+	}
+	dims := [][2]int{{512, 512}, {256, 256}, {320, 200}, {384, 300}, {200, 330}, {448, 256}}
+	for k := 0; k < n; k++ {
+		r := NewRNG(rep.Seed, uint64(9100000+k))
+		d := dims[(k+int(rep.Seed))%len(dims)]
+		if k == 0 {
+			d = dims[0]
+		}
+		var img *image.NRGBA
+		class := "noise-blocks+flat"
+		if k%4 == 3 {
+			img = genCorrelated(NewRNG(rep.Seed, uint64(9110000+k)), d[0], d[1])
+			class = "correlated-channels"
+		} else {
+			img = genNoiseFlat(NewRNG(rep.Seed, uint64(9110000+k)), d[0], d[1])
+		}
+		o := webp.DefaultOptions()
+		o.Lossless = true
+		o.Quality = []float32{100, 90, 95, 100}[k%4]
+		o.Method = []int{4, 3, 5, 6, 4}[(k+r.Intn(2))%5]
+		desc := fmt.Sprintf("%dx%d/%s lossless=true m=%d q=%v", d[0], d[1], class, o.Method, o.Quality)
+		runtime.GOMAXPROCS(1)
+		ref, err := encodeBytes(img, o)
+		if err != nil {
+			rep.Count("lossless-workers:encode-error")
+			continue
+		}
+		procsList := []int{2, 3, 4, 5, 6, 7, 8}
+		if rep.Tier != "thorough" && k > 0 {
+			procsList = []int{2 + (k+int(rep.Seed))%2, 5 + (k+int(rep.Seed))%4, 4}
+		}
+		for _, p := range procsList {
+			runtime.GOMAXPROCS(p)
+			type res struct {
+				b   []byte
+				err error
+			}
+			ch := make(chan res, 1)
+			go func() { b, err := encodeBytes(img, o); ch <- res{b, err} }()
+			var got res
+			select {
+			case got = <-ch:
+			case <-time.After(180 * time.Second):
+				rep.Add(Finding{Kind: "property", Property: "C10", Signature: "sched:deadlock:lossless",
+					Detail: fmt.Sprintf("lossless Encode did not return within 180 s at GOMAXPROCS=%d: %s", p, desc),
+					Input:  map[string]any{"op": "sched-lossless", "case": k, "seed": rep.Seed, "procs": p, "desc": desc}})
+				return false
+			}
+			rep.Eval(true, []byte(fmt.Sprintf("%s p=%d", desc, p)))
+			rep.Count(fmt.Sprintf("lossless-workers:procs=%d", p))
+			in := map[string]any{"op": "sched-lossless", "case": k, "seed": rep.Seed, "procs": p, "desc": desc,
+				"gen": "k%4==3: genCorrelated else genNoiseFlat, NewRNG(seed, 9110000+k); see schedLosslessWorkers"}
+			if got.err != nil {
+				rep.Add(Finding{Kind: "property", Property: "C10", Signature: "sched:lossless-encode-error", Detail: fmt.Sprintf("%s at GOMAXPROCS=%d: %v", desc, p, got.err), Input: in})
+				continue
+			}
+			if !bytes.Equal(got.b, ref) {
+				rep.Add(Finding{Kind: "property", Property: "C10", Signature: "sched:lossless-bytes-differ",
+					Detail: fmt.Sprintf("lossless Encode bytes with %d workers differ from the single-CPU run (%s): %d vs %d bytes", p, desc, len(got.b), len(ref)), Input: in})
+			}
+			dec, derr := webp.Decode(bytes.NewReader(got.b))
+			if derr != nil {
+				in2 := map[string]any{}
+				for kk, v := range in {
+					in2[kk] = v
+				}
+				in2["hex"] = short(hx(got.b), 6000)
+				rep.Add(Finding{Kind: "property", Property: "C10", Signature: "sched:lossless-output-not-decodable",
+					Detail: fmt.Sprintf("lossless Encode with %d workers returned nil but its output does not decode (%s): %v", p, desc, derr), Input: in2})
+			} else if same, why := nrgbaEqual(img, toNRGBA(dec), false); !same {
+				rep.Add(Finding{Kind: "property", Property: "C10", Signature: "sched:lossless-output-other-picture",
+					Detail: fmt.Sprintf("lossless Encode with %d workers: the output decodes to another picture (%s): %s", p, desc, why), Input: in})
+			}
+		}
+		rep.Count("lossless-workers:" + class)
+	}
+	return true
+}
+
+// schedSynStreams draws synthetic VP8L streams that use colour indexing (chains containing "ci") and that the
+// decoder accepts, wrapped as simple lossless files.
+func schedSynStreams(seed uint64, want int) (files [][]byte, descs []string) {
+	for i := 0; len(files) < want && i < 40*want; i++ {
+		r := NewRNG(seed, uint64(9200000+i))
+		var b []byte
+		var d string
+		if i%3 == 2 {
+			b, d = SynVP8LNarrow(r)
+		} else {
+			b, d = SynVP8L(r)
+		}
+		if !strings.Contains(strings.SplitN(d, " ", 2)[0], "ci") || strings.Contains(d, "defect=") || len(b) > 6000 {
+			continue
+		}
+		f := riff(chunk("VP8L", b))
+		if s, _ := guard(func() string {
+			if _, err := webp.Decode(bytes.NewReader(f)); err != nil {
+				return "err"
+			}
+			return "ok"
+		}); s != "ok" {
+			continue
+		}
+		files = append(files, f)
+		descs = append(descs, d)
+	}
+	return
+}
+
+// schedSynDecodes: leg (ii-a) of suite sched.
+func schedSynDecodes(rep *Report) {
+	defer runtime.GOMAXPROCS(runtime.GOMAXPROCS(0))
+	nStreams, reps := 10, 3
+	if rep.Tier == "thorough" {
+		nStreams, reps = 200, 4
+	}
+	files, descs := schedSynStreams(rep.Seed, nStreams)
+	// larger noisy pictures (lossless and lossy+alpha: the alpha plane is a VP8L stream too) to dirty the pools
+	var noisy [][]byte
+	for k := 0; k < 4; k++ {
+		r := NewRNG(rep.Seed, uint64(9300000+k))
+		img := GenImage(r, 96+16*k, 80, ClsNoise, []int{AlphaNoise, AlphaNone, AlphaGradient, AlphaNoise}[k])
+		o := webp.DefaultOptions()
+		o.Lossless = k != 2
+		o.Method = 1
+		if b, err := encodeBytes(img, o); err == nil {
+			noisy = append(noisy, b)
+		}
+	}
+	dec := func(f []byte) string {
+		s, pm := guard(func() string {
+			im, err := webp.Decode(bytes.NewReader(f))
+			if err != nil {
+				return "err"
+			}
+			return "ok " + im.Bounds().String() + " " + digest(toNRGBA(im).Pix)
+		})
+		if s == "panic" {
+			return "panic: " + pm
+		}
+		return s
+	}
+	for _, procs := range []int{1, 8} {
+		runtime.GOMAXPROCS(procs)
+		for i, f := range files {
+			// quiet reference: pools emptied (sync.Pool drops its contents over two GC cycles)
+			runtime.GC()
+			runtime.GC()
+			ref := dec(f)
+			// dirty the pools on this goroutine, then decode; and the same concurrently
+			var results []string
+			for _, nf := range noisy {
+				dec(nf)
+				results = append(results, dec(f))
+			}
+			var wg sync.WaitGroup
+			conc := make([]string, reps*2)
+			for g := 0; g < reps*2; g++ {
+				wg.Add(1)
+				go func(g int) {
+					defer wg.Done()
+					if g%2 == 0 {
+						for _, nf := range noisy {
+							dec(nf)
+						}
+						conc[g] = ref
+						return
+					}
+					dec(noisy[g%len(noisy)])
+					conc[g] = dec(f)
+				}(g)
+			}
+			wg.Wait()
+			results = append(results, conc...)
+			rep.Count(fmt.Sprintf("syn-decode:GOMAXPROCS=%d", procs))
+			for k, got := range results {
+				rep.Eval(true, []byte(fmt.Sprintf("syn-decode %d %d %d", procs, i, k)))
+				if got != ref {
+					how := "after other decodes on the same goroutine"
+					if k >= len(noisy) {
+						how = "while other goroutines decode"
+					}
+					rep.Add(Finding{Kind: "property", Property: "C10", Signature: "concurrent:decode-synthetic",
+						Detail: fmt.Sprintf("Decode of a synthetic VP8L stream (%s, %d bytes) %s returned %s; on a quiet process with empty pools %s (GOMAXPROCS=%d)", descs[i], len(f), how, short(got, 90), short(ref, 90), procs),
+						Input:  map[string]any{"op": "sched-syn-decode", "hex": hx(f), "noisy": hx(noisy[0]), "desc": descs[i]}})
+					break
+				}
+			}
+		}
+	}
+}
+
+func replaySchedSynDecode(in map[string]any) int {
+	f := unhx(fmt.Sprint(in["hex"]))
+	nf := unhx(fmt.Sprint(in["noisy"]))
+	dec := func(f []byte) string {
+		s, pm := guard(func() string {
+			im, err := webp.Decode(bytes.NewReader(f))
+			if err != nil {
+				return "err"
+			}
+			return "ok " + im.Bounds().String() + " " + digest(toNRGBA(im).Pix)
+		})
+		return s + pm
+	}
+	runtime.GC()
+	runtime.GC()
+	ref := dec(f)
+	dec(nf)
+	got := dec(f)
+	fmt.Printf("go (fresh pools):        %s\ngo (after another decode): %s\n", ref, got)
+	if ref != got {
+		return 1
+	}
+	return 0
 }
 
 func lossKind(name string) string {
